@@ -40,8 +40,17 @@ def check(prop, tier, seed):
     try:
         vunits = [u for u in units if u["tool"] == "verus"]
         kunits = [u for u in units if u["tool"] == "kani"]
+        standins = []
         for u in vunits:
-            results += V.run_verus_unit(u, tier, prop)
+            try:
+                results += V.run_verus_unit(u, tier, prop)
+            except Undecided as e:
+                si = V.bounded_standin(prop, u, e)
+                if si is None:
+                    raise
+                log(f"[verus] {u['name']}: UNDECIDED by the verifier ({str(e).splitlines()[0][:160]}); "
+                    f"bounded stand-in (native search on the real code) found a failing sequence")
+                standins.append(si)
         if kunits:
             with Scratch(prop + "-" + tier) as sc:
                 results += K.run_kani(kunits, tier, prop, sc)
@@ -51,6 +60,9 @@ def check(prop, tier, seed):
         for r in results:
             if r["tool"] == "verus" and r["status"] == "failed":
                 replays.append(V.verus_replay(prop, r, next(u for u in vunits if u["name"] == r["unit"])))
+        for r, rec in standins:
+            results.append(r)
+            replays.append(rec)
     except Undecided as e:
         log(f"UNDECIDED property={prop}: {e}")
         write_evidence(prop, tier, seed, level, results, units, time.time() - t0, undecided=str(e))
